@@ -18,7 +18,7 @@ RULE = ("random configuration (1..6 parity + z, 1..6 data disks incl. position h
         "taken at sync time, following check clean. thorough: all device subsets of size <= N when nd+np <= 7. A case is "
         "non-trivial when the plan really changed >= 1 recorded block/entry; distinct by (cfg, history, plan).")
 
-DATA_KINDS = ["wipe", "wipe", "delete", "truncate", "flip", "flip-newtime", "rmlinks", "rename-over"]
+DATA_KINDS = ["wipe", "wipe", "delete", "truncate", "flip", "flip-newtime", "rmlinks", "relinks", "relinks", "rename-over"]
 PAR_KINDS = ["delete", "zero", "truncate", "flips", "random"]
 
 
